@@ -744,6 +744,27 @@ fn c08_cases(quick: bool) -> Vec<Case> {
             }
         }
     }
+    // clauses with TWO goals after the head, `[h, r1, r2]`: they run in the order written (the
+    // trace of an answer records it) after the head has committed
+    {
+        let hsel: Vec<(Script, Enc)> = ["A", "AA", "DA", ""].iter().map(|s| (Script::parse(s), Enc::Pause)).collect();
+        let rsel: Vec<(Script, Enc)> = ["A", "AA", "DA"].iter().map(|s| (Script::parse(s), Enc::Pause)).collect();
+        for h in &hsel {
+            for r1 in &rsel {
+                for r2 in &rsel {
+                    let leaves = vec![h.clone(), r1.clone(), r2.clone(), (Script::parse("A"), Enc::Pause)];
+                    let one = vec![(Tr::Leaf(0), Tr::Conj(vec![Tr::Leaf(1), Tr::Leaf(2)]))];
+                    let two = vec![(Tr::Leaf(0), Tr::Conj(vec![Tr::Leaf(1), Tr::Leaf(2)])), (Tr::Leaf(3), Tr::Conj(vec![Tr::Leaf(2), Tr::Leaf(1)]))];
+                    for cl in [one, two] {
+                        out.push(Case { tree: Tr::Conda(cl.clone()), leaves: leaves.clone() });
+                        out.push(Case { tree: Tr::Condu(cl.clone()), leaves: leaves.clone() });
+                        // twice, so that both builds (direct and through matcha / matchu) see it
+                        out.push(Case { tree: Tr::Condu(cl.clone()), leaves: leaves.clone() });
+                    }
+                }
+            }
+        }
+    }
     // statically true / false goals as head or rest (the constructors fold such goals when the
     // clause list is built): clauses [L0, false], [true, L1], [false, L1], [L0, true]
     {
